@@ -383,6 +383,54 @@ Section Model128.
   Qed.
 End Model128.
 
+Section Model64.
+  Notation hb := (KernelSpecs2.half_bytes64 bool).
+  Notation T := (state nib * rc6)%type.
+  Definition encx64 (t : T) : mem bool := [reg_of_state64 bool (fst t)].
+  Definition enc1_64 (t : T) : mem bool := [reg_of_state64 bool (fst t); [bits_of_rc (snd t)]].
+
+  Lemma passx64_image : forall body next,
+    (forall tk slot pre, length pre = 4 ->
+       body [reg_of_state64 bool tk; pre ++ hb slot ++ []]
+       = [reg_of_state64 bool (next tk); pre ++ hb (hxor nib bxor4 slot (rows01 nib tk)) ++ []]) ->
+    forall n tk hdr sched back, length hdr = 4 -> n <= length sched ->
+    pass bool body 4 n (reg_of_state64 bool tk) [] (hdr ++ concat (map hb sched) ++ back)
+    = hdr ++ concat (map hb (sched_loop nib n (fun e k _ => hxor nib bxor4 e k) next tk rc_init sched)) ++ back.
+  Proof.
+    intros body next Hstep n tk hdr sched back Hh Hn. unfold pass.
+    change (reg_of_state64 bool tk :: []) with (encx64 (tk, rc_init)).
+    rewrite (loop_win_image (half nib) hb 4 hb64_len T encx64 body
+               (fun t => (next (fst t), rc_next (snd t))) (fun t e => hxor nib bxor4 e (rows01 nib (fst t)))).
+    - cbn [snd]. rewrite (loopT_is_sched_loop nib (fun e k _ => hxor nib bxor4 e k) next). reflexivity.
+    - intros t. discriminate.
+    - intros [tk0 r0] e pre Hp. cbn [encx64 fst snd nth tl].
+      pose proof (Hstep tk0 e pre Hp) as H. rewrite !app_nil_r in H. exact H.
+    - rewrite Hh. lia.
+    - exact Hn.
+  Qed.
+
+  Lemma pass1_64_image : forall tw n tk hdr sched back, length hdr = 4 -> n <= length sched ->
+    pass bool (k64_tk1_body bool xorb false true tw) 4 n (reg_of_state64 bool tk) (rc0 bool false)
+         (hdr ++ concat (map hb sched) ++ back)
+    = hdr ++ concat (map hb (sched_loop nib n (fun _ k r => hxor nib bxor4 k (const_half nib cnib4 nib0 tw r))
+                                        (next_tk1 nib) tk rc_init sched)) ++ back.
+  Proof.
+    intros tw n tk hdr sched back Hh Hn. unfold pass.
+    change (reg_of_state64 bool tk :: rc0 bool false) with (enc1_64 (tk, rc_init)).
+    rewrite (loop_win_image (half nib) hb 4 hb64_len T enc1_64 (k64_tk1_body bool xorb false true tw)
+               (fun t => (next_tk1 nib (fst t), rc_next (snd t)))
+               (fun t e => hxor nib bxor4 (rows01 nib (fst t)) (const_half nib cnib4 nib0 tw (rc_next (snd t))))).
+    - cbn [snd].
+      rewrite (loopT_is_sched_loop nib (fun _ k r => hxor nib bxor4 k (const_half nib cnib4 nib0 tw r)) (next_tk1 nib)).
+      reflexivity.
+    - intros t. discriminate.
+    - intros [tk0 r0] e pre Hp. cbn [enc1_64 fst snd nth tl].
+      pose proof (k64_tk1_body_step tw tk0 e pre [] r0 Hp) as H. rewrite !app_nil_r in H. exact H.
+    - rewrite Hh. lia.
+    - exact Hn.
+  Qed.
+End Model64.
+
 (* ---- set_key_inner (no tweak) on an image ---- *)
 From Skinny Require Import ProofsSkinny.
 Notation bitsb := (map (bits_of_c8 bool)).
@@ -494,3 +542,99 @@ Proof.
   f_equal. exact (key_sched128_model key hdr sched back r0 Hk Hh Hs).
 Qed.
 Print Assumptions w_set_key128_model.
+
+Lemma set_rounds_image4 : forall R (hdr rest : list (list bool)), length hdr = 4 ->
+  set_rounds bool false true R (hdr ++ rest) = (rbytes R ++ skipn 4 hdr) ++ rest.
+Proof.
+  intros R hdr rest Hh. unfold set_rounds, splice. cbn [firstn app plus]. fold (rbytes R). rewrite rbytes_len.
+  rewrite skipn_app. replace (4 - length hdr) with 0 by lia. cbn [skipn]. rewrite <- app_assoc. reflexivity.
+Qed.
+Lemma hdr4'_len : forall R (hdr : list (list bool)), length hdr = 4 -> length (rbytes R ++ skipn 4 hdr) = 4.
+Proof. intros R hdr H. rewrite app_length, rbytes_len, skipn_length. lia. Qed.
+
+Section KeyModel64.
+  Notation hb := (KernelSpecs2.half_bytes64 bool).
+  Notation l2 := (lfsr2_4 bool xorb).
+  Notation l3 := (lfsr3_4 bool xorb).
+  Notation KS := (key_sched bool false true (k64_tk1_body bool xorb false true) (k64_tk2_body bool xorb false)
+                            (k64_tk3_body bool xorb false) 4 8 32 36 40).
+
+  Lemma tk_region64 : forall (l : list byte), padb bool false 8 (bitsb l) = reg_of_state64 bool (load64 (pad_to 8 l)).
+  Proof.
+    intros l. rewrite <- bits_pad_to. symmetry. apply reg_of_state64_load64. apply pad_to_length.
+  Qed.
+  Lemma tk_region64_full : forall (l : list byte), length l = 8 -> bitsb l = reg_of_state64 bool (load64 (pad_to 8 l)).
+  Proof. intros l H. rewrite (pad_to_id 8 l H). symmetry. apply reg_of_state64_load64. exact H. Qed.
+
+  Lemma bits_firstn64 : forall n (l : list byte), firstn n (bitsb l) = bitsb (firstn n l).
+  Proof. intros n l. apply firstn_map. Qed.
+  Lemma bits_skipn64 : forall n (l : list byte), skipn n (bitsb l) = bitsb (skipn n l).
+  Proof. intros n l. apply skipn_map. Qed.
+
+  Theorem key_sched64_model : forall (key hdr : list byte) (sched : list (half nib)) back r0,
+    8 <= length key <= 24 -> length hdr = 4 -> length sched = 40 ->
+    let ks' := set_key_inner nib bxor4 cnib4 l2 l3 8 load64 nib0 m64_rounds {| ks_rounds := r0; ks_sched := sched |} key None in
+    KS (length key) false (bitsb key) [] (bitsb hdr ++ concat (map hb sched) ++ back)
+    = (rbytes (N.to_nat (ks_rounds nib ks')) ++ skipn 4 (bitsb hdr)) ++ concat (map hb (ks_sched nib ks')) ++ back.
+  Proof.
+    intros key hdr sched back r0 Hk Hh Hs. cbv zeta.
+    assert (Hh' : length (bitsb hdr) = 4) by (rewrite map_length; exact Hh).
+    assert (L32 : 32 <= length sched) by (replace (length sched) with 40 by (symmetry; exact Hs); repeat constructor).
+    assert (L36 : 36 <= length sched) by (replace (length sched) with 40 by (symmetry; exact Hs); repeat constructor).
+    assert (L40 : 40 <= length sched) by (replace (length sched) with 40 by (symmetry; exact Hs); repeat constructor).
+    unfold key_sched, set_key_inner. cbn [negb ks_sched].
+    destruct (Nat.eqb (length key) 8) eqn:E1; [|destruct (Nat.leb (length key) (2 * 8)) eqn:E2].
+    - cbn [mk_ks ks_rounds ks_sched]. rewrite Nat2N.id.
+      change (m64_rounds 1) with 32. rewrite set_rounds_image4 by exact Hh'.
+      rewrite tk_region64.
+      rewrite (pass1_64_image false 32 _ _ sched back (hdr4'_len 32 _ Hh') L32).
+      reflexivity.
+    - cbn [mk_ks ks_rounds ks_sched]. rewrite Nat2N.id.
+      change (m64_rounds 2) with 36. rewrite set_rounds_image4 by exact Hh'.
+      rewrite (bits_skipn64 8 key), (bits_firstn64 8 key), tk_region64.
+      rewrite (tk_region64_full (firstn 8 key)) by (rewrite firstn_length; lia).
+      rewrite (pass1_64_image false 36 _ _ sched back (hdr4'_len 36 _ Hh') L36).
+      rewrite (passx64_image (k64_tk2_body bool xorb false) (next_tk2 nib l2)
+                 (fun tk slot pre Hp => k64_tk2_body_step tk slot pre [] Hp) 36 _ _ _ back (hdr4'_len 36 _ Hh'))
+        by (eapply Nat.le_trans; [exact L36 | apply Nat.eq_le_incl; symmetry; apply sched_loop_len]).
+      reflexivity.
+    - cbn [mk_ks ks_rounds ks_sched]. rewrite Nat2N.id.
+      change (m64_rounds 3) with 40. rewrite set_rounds_image4 by exact Hh'.
+      rewrite (bits_skipn64 (2 * 8) key), (bits_skipn64 8 key), (bits_firstn64 8 key), (bits_firstn64 8 (skipn 8 key)), tk_region64.
+      rewrite (tk_region64_full (firstn 8 key)) by (rewrite firstn_length; lia).
+      rewrite (tk_region64_full (firstn 8 (skipn 8 key))) by (rewrite firstn_length, skipn_length; apply Nat.leb_gt in E2; lia).
+      rewrite (pass1_64_image false 40 _ _ sched back (hdr4'_len 40 _ Hh') L40).
+      rewrite (passx64_image (k64_tk2_body bool xorb false) (next_tk2 nib l2)
+                 (fun tk slot pre Hp => k64_tk2_body_step tk slot pre [] Hp) 40 _ _ _ back (hdr4'_len 40 _ Hh'))
+        by (eapply Nat.le_trans; [exact L40 | apply Nat.eq_le_incl; symmetry; apply sched_loop_len]).
+      rewrite (passx64_image (k64_tk3_body bool xorb false) (next_tk3 nib l3)
+                 (fun tk slot pre Hp => k64_tk3_body_step tk slot pre [] Hp) 40 _ _ _ back (hdr4'_len 40 _ Hh'))
+        by (eapply Nat.le_trans; [exact L40 | apply Nat.eq_le_incl; symmetry; etransitivity; [apply sched_loop_len | apply sched_loop_len]]).
+      reflexivity.
+  Qed.
+End KeyModel64.
+
+(* the observable result of skinny128_set_key(ks, key, size) on the byte image of a model schedule is the byte image of the
+   model's (hence, ProofsSkinny.m64_set_key_spec / _padding, the specification's) result, for every accepted size *)
+Theorem w_set_key64_model : forall (key hdr : list byte) (sched : list (half nib)) back r0 rest,
+  8 <= length key <= 24 -> length hdr = 4 -> length sched = 40 ->
+  let res := m64_set_key {| ks_rounds := r0; ks_sched := sched |} (Some key) (N.of_nat (length key)) in
+  fst res = 1%N /\
+  w_set_key64 bool xorb false true (length key)
+    ((bitsb hdr ++ concat (map (KernelSpecs2.half_bytes64 bool) sched) ++ back) :: bitsb key :: rest)
+  = [ (rbytes (N.to_nat (ks_rounds nib (snd res))) ++ skipn 4 (bitsb hdr))
+        ++ concat (map (KernelSpecs2.half_bytes64 bool) (ks_sched nib (snd res))) ++ back;
+      bitsb key ].
+Proof.
+  intros key hdr sched back r0 rest Hk Hh Hs. cbv zeta.
+  unfold m64_set_key, set_key.
+  assert (Hok : size_ok 8 (3 * 8) (N.of_nat (length key)) = true).
+  { unfold size_ok. apply andb_true_iff. split; apply N.leb_le; lia. }
+  rewrite Hok. cbn [fst snd]. split; [reflexivity|].
+  rewrite Nat2N.id, (pad_to_id (length key) key eq_refl).
+  unfold w_set_key64, w_set_key. unfold reg. cbn [nth].
+  rewrite firstn_all2 by (apply Nat.eq_le_incl, map_length).
+  f_equal. exact (key_sched64_model key hdr sched back r0 Hk Hh Hs).
+Qed.
+Print Assumptions w_set_key64_model.
+
